@@ -599,6 +599,12 @@ class BuiltinMixin(object):
       return [(st, VBool(obj.cls is cls.cls))]
     return [(st, VBool(z3.And(obj.t != 0, st.classof(obj.t) == cls.cls.uid)))]
 
+  def b_next(self, st, args, kwargs):
+    it = args[0]
+    if isinstance(it, VRef) and isinstance(it.cls, str) and it.cls.startswith('gen:'):
+      return self.co_resume(st, it, None)
+    raise Unsupported('next() on %r' % (it,))
+
   def b_class_named(self, st, args, kwargs):
     """spec: the class object with this (unqualified or dotted-suffix) name, independent of the enclosing module's imports."""
     name = z3.simplify(args[0].t).as_string()
@@ -1283,6 +1289,20 @@ class BuiltinMixin(object):
     self.ctx.use_trusted('struct.unpack')
     fmt = z3.simplify(args[0].t).as_string()
     import re as _re
+    if fmt == '>I':
+      # big-endian word, kept abstract (be32): the only producer in scope is binascii.unhexlify of hex digits
+      raw = args[1]
+      if not isinstance(raw, (VStr, VBytes)):
+        raise Unsupported('struct.unpack of %r' % (raw,))
+      be32 = z3.Function('be32', z3.StringSort(), z3.IntSort())
+      out = []
+      for s, good in self.branch(st, z3.Length(raw.t) == 4):
+        if good:
+          s.axiom(z3.And(be32(raw.t) >= 0, be32(raw.t) < 2**32))
+          out.append((s, VTuple([VInt(be32(raw.t))])))
+        else:
+          out.append((s, self.raise_builtin(s, 'struct.error', 'unpack requires a buffer of 4 bytes')))
+      return out
     m = _re.match(r'^<(\d*)I$', fmt)
     if not m:
       raise Unsupported('struct.unpack format %r' % fmt)
@@ -1309,6 +1329,39 @@ class BuiltinMixin(object):
         words.append(VInt(w))
       out.append((s, VTuple(words)))
     return out
+
+  def x_binascii_unhexlify(self, st, args, kwargs):
+    """Trusted: unhexlify(s) is `unhex(s)` (half as long) when s is an even number of hex digits, else binascii.Error
+    (a ValueError)."""
+    self.ctx.use_trusted('binascii.unhexlify')
+    raw = args[0]
+    if not isinstance(raw, (VStr, VBytes)):
+      raise Unsupported('unhexlify of %r' % (raw,))
+    unhex = z3.Function('unhex', z3.StringSort(), z3.StringSort())
+    ishex = z3.Function('is_hex', z3.StringSort(), z3.BoolSort())
+    out = []
+    for s, good in self.branch(st, z3.And(ishex(raw.t), z3.Length(raw.t) % 2 == 0)):
+      if good:
+        s.axiom(2 * z3.Length(unhex(raw.t)) == z3.Length(raw.t))
+        out.append((s, VBytes(unhex(raw.t))))
+      else:
+        out.append((s, self.raise_builtin(s, 'ValueError', 'Non-hexadecimal digit found / Odd-length string')))
+    return out
+
+  def b_hex32(self, st, args, kwargs):
+    """spec: the value announced by the first 8 characters of a DATA payload."""
+    unhex = z3.Function('unhex', z3.StringSort(), z3.StringSort())
+    be32 = z3.Function('be32', z3.StringSort(), z3.IntSort())
+    return [(st, VInt(be32(unhex(z3.SubString(args[0].t, 0, 8)))))]
+
+  def b_hex8(self, st, args, kwargs):
+    """spec: '%08x' % n"""
+    return [(st, VStr(self.hex8_of(st, vv.as_intlike(args[0]))))]
+
+  def b_is_hex8(self, st, args, kwargs):
+    ishex = z3.Function('is_hex', z3.StringSort(), z3.BoolSort())
+    sub = z3.SubString(args[0].t, 0, 8)
+    return [(st, VBool(z3.And(ishex(sub), z3.Length(sub) == 8)))]
 
   def x_os_path_basename(self, st, args, kwargs):
     return [(st, VStr(z3.Function('basename', z3.StringSort(), z3.StringSort())(args[0].t)))]
